@@ -93,8 +93,12 @@ void ffi_loader_shutdown(void) {
 }
 
 bool ffi_loader_is_initialized(void) {
-    /* Reading a bool is atomic on all supported platforms */
-    return initialized;
+    /* Under the lock like every other access: daemon sessions that run FFI
+     * in-process ask this while another session may be initialising. */
+    pthread_rwlock_rdlock(&ffi_lock);
+    bool result = initialized;
+    pthread_rwlock_unlock(&ffi_lock);
+    return result;
 }
 
 /* ── Module tracking ─────────────────────────────────────────────── */
